@@ -101,7 +101,7 @@ class Front:
     def _facts_path(self, unit, config, simd, std, extra):
         k = hashlib.sha1(repr((unit, config, simd, std, tuple(extra))).encode()).hexdigest()[:12]
         base = os.path.basename(unit).replace('.', '_')
-        return os.path.join(self.facts_dir, '%s-%s-%s.json' % (base, config, k))
+        return os.path.join(self.facts_dir, '%s-%s-%s-%d.json' % (base, config, k, os.getpid()))
 
     def _run_plugin(self, unit, config, simd, std, extra, noast):
         os.makedirs(self.facts_dir, exist_ok=True)
